@@ -392,13 +392,24 @@ def replay(r):
                 def suggested_fixed(): return [False]
             def make_pdf(self, pars): return FakePdf(pars)
         saved = (C.fixed_poi_fit, C.utils.get_test_stat)
-        C.fixed_poi_fit = lambda mu, *a, **k: (calls["fits"].append(mu) or ("pars@", mu))
+        fit_args = []
+
+        def fake_fixed_poi_fit(mu, data, pdf, init_pars=None, par_bounds=None, fixed_params=None, **k):
+            calls["fits"].append(mu)
+            fit_args.append((init_pars, par_bounds, fixed_params))
+            return ("pars@", mu)
+        C.fixed_poi_fit = fake_fixed_poi_fit
         C.utils.get_test_stat = lambda nm: (lambda poi, sample, *a, **k: (calls["stats"].append((poi, sample)) or float(len(calls["stats"]))))
         try:
             for ts, bkgmu in (("qtilde", 0.0), ("q", 0.0), ("q0", 1.0)):
                 calls["fits"].clear(); calls["stats"].clear()
-                calc = C.ToyCalculator([1.0], Model(), test_stat=ts, ntoys=3, track_progress=False)
+                del fit_args[:]
+                # the caller's own settings (not the model's suggestions; POI lower bound below 0) must reach both conditional fits
+                mine = ([3.3], [(-5.0, 10.0)], [False])
+                calc = C.ToyCalculator([1.0], Model(), init_pars=mine[0], par_bounds=mine[1], fixed_params=mine[2], test_stat=ts, ntoys=3, track_progress=False)
                 sb, b = calc.distributions(2.5)
+                if any((list(a[0] or []), list(a[1] or []), list(a[2] or [])) != (mine[0], mine[1], mine[2]) for a in fit_args) or len(fit_args) != 2:
+                    bad[f"fit-settings@{ts}"] = {"passed to ToyCalculator": mine, "received by the fits": fit_args}
                 if calls["fits"] != [2.5, bkgmu]:
                     bad[f"fits@{ts}"] = list(calls["fits"])
                 want = [(2.5, ("toy", ("pars@", 2.5), i)) for i in range(3)] + [(2.5, ("toy", ("pars@", bkgmu), i)) for i in range(3)]
